@@ -1103,6 +1103,11 @@ func (s *vSim) randomRun(o simOpts) {
 		nInit = 3
 		voters = []uint64{1, 2, 3}
 	}
+	if o.scenarios && s.tid%32 == 7 {
+		scen = 7
+		nInit = 3
+		voters = []uint64{1, 2, 3}
+	}
 	for _, id := range voters {
 		s.boot(id, voters)
 	}
@@ -1467,6 +1472,19 @@ func (s *vSim) scenario5(nextID uint64) uint64 {
 			s.nextVal++
 			s.propose(l, s.nextVal)
 		}
+		if l.peer.raft.state == leader && i%2 == 1 {
+			// a linearizable read on the cut-off leader: without CheckQuorum it still believes it
+			// leads, and only the non-voting members answer its heartbeats - the read must not complete
+			s.nextCtx++
+			s.readIndex(l, s.nextCtx)
+		}
+		// whoever leads the two other voters commits new entries meanwhile
+		for _, n := range s.upNodes() {
+			if n.id != l.id && n.peer.raft.state == leader {
+				s.nextVal++
+				s.propose(n, s.nextVal)
+			}
+		}
 		s.settle(int(s.et), cut, nil, nil, nil)
 	}
 	return nextID
@@ -1526,7 +1544,27 @@ func (s *vSim) scenario6(nextID uint64) uint64 {
 	return nextID + 1
 }
 
+// scenario7 (three voters): a witness joins, so that later a majority can consist of two voters
+// and the witness (the heal phase of these traces keeps one voter down).
+func (s *vSim) scenario7(nextID uint64) uint64 {
+	s.settle(40, nil, nil, nil, func() bool { return s.leaderNode() != nil && s.leaderNode().applied >= 4 })
+	l := s.leaderNode()
+	if l == nil {
+		return nextID
+	}
+	s.proposeCC(l, opAddWitness, nextID)
+	s.settle(8, nil, nil, nil, nil)
+	if _, ok := s.firstKind[nextID]; ok && s.nodes[nextID] == nil {
+		s.join(nextID, "W")
+	}
+	s.settle(8, nil, nil, nil, nil)
+	return nextID + 1
+}
+
 func (s *vSim) scenario(k int, nextID uint64) uint64 {
+	if k == 7 {
+		return s.scenario7(nextID)
+	}
 	if k == 6 {
 		return s.scenario6(nextID)
 	}
@@ -1635,6 +1673,56 @@ func (s *vSim) healAndCheck(rounds int) {
 		n.peer.raft.randomizedElectionTimeout = s.et + (n.id-1)%s.et
 		n.lastRto = n.peer.raft.randomizedElectionTimeout
 		s.emit(jEvent{A: "SetRto"}, n)
+	}
+	// in some traces one plain voter stays down through the fair period although everything else
+	// is healed: the property asks for progress whenever a *majority* of the voting members
+	// (witnesses included) runs and is connected. Only done when the membership known to the most
+	// advanced replica has a witness and a majority remains without that voter.
+	if s.tid%4 == 3 {
+		var ref *vNode
+		for _, n := range s.upNodes() {
+			if ref == nil || n.applied > ref.applied {
+				ref = n
+			}
+		}
+		// the membership must be settled: every running voter has applied the same voters and
+		// witnesses as the most advanced one (a change that is committed but not yet applied by the
+		// replicas that stay up still needs the old majority - membership takes effect on apply)
+		settled := ref != nil
+		if ref != nil {
+			same := func(a, b map[uint64]bool) bool {
+				if len(a) != len(b) {
+					return false
+				}
+				for k := range a {
+					if !b[k] {
+						return false
+					}
+				}
+				return true
+			}
+			for _, n := range s.upNodes() {
+				if ref.mem.v[n.id] && !(same(n.mem.v, ref.mem.v) && same(n.mem.w, ref.mem.w)) {
+					settled = false
+				}
+			}
+		}
+		if settled && len(ref.mem.w) >= 1 && len(ref.mem.v) >= 2 {
+			voting := len(ref.mem.v) + len(ref.mem.w)
+			upVoting := 0
+			for _, n := range s.upNodes() {
+				if ref.mem.v[n.id] || ref.mem.w[n.id] {
+					upVoting++
+				}
+			}
+			for _, id := range s.ids {
+				if n := s.nodes[id]; n != nil && n.up && ref.mem.v[id] && upVoting-1 >= voting/2+1 {
+					s.crash(n)
+					n.started = false
+					break
+				}
+			}
+		}
 	}
 	// a snapshot that was sent during the fault prefix and lost: the transport reports the failed
 	// transfer to the sender sooner or later (HandleSnapshotStatus), it never stays silent
